@@ -262,11 +262,13 @@ func (lcp *LCPStateMachine) closeInternal(reason string) {
 		lcp.setState(LCPStateClosing)
 	case LCPStateOpened:
 		// This-Layer-Down
-		lcp.initializeRestartCount()
+		// Initialize-Restart-Count for the terminate phase: Max-Terminate, not Max-Configure
+		lcp.restartCount = lcp.config.MaxTerminate
 		lcp.sendTerminateRequest(reason)
 		lcp.setState(LCPStateClosing)
 	case LCPStateReqSent, LCPStateAckRcvd, LCPStateAckSent:
-		lcp.initializeRestartCount()
+		// Initialize-Restart-Count for the terminate phase: Max-Terminate, not Max-Configure
+		lcp.restartCount = lcp.config.MaxTerminate
 		lcp.sendTerminateRequest(reason)
 		lcp.setState(LCPStateClosing)
 	}
